@@ -32,10 +32,10 @@ var c10Keys = []string{"a", "aa", "ab", "a\x00", "b", "b\xffz", "\xff"}
 var c10Probes = []string{"", "\x00", "a", "a\x00", "a\x00\x00", "aa", "aa\x00", "ab", "az", "b", "b\xff", "b\xffz", "c", "\xff", "\xff\xff", "zzz"}
 
 type kvOp struct {
-	Op   string   `json:"op"` // Set Delete DeletePrefix Update Bulk
-	K    string   `json:"k,omitempty"`
-	V    string   `json:"v,omitempty"`
-	Subs []kvSub  `json:"subs,omitempty"`
+	Op   string  `json:"op"` // Set Delete DeletePrefix Update Bulk
+	K    string  `json:"k,omitempty"`
+	V    string  `json:"v,omitempty"`
+	Subs []kvSub `json:"subs,omitempty"`
 }
 
 type kvSub struct {
@@ -78,9 +78,9 @@ func c10Alphabet() []kvOp {
 }
 
 type c10Case struct {
-	Driver string  `json:"driver"`
-	Ops    []kvOp  `json:"ops,omitempty"`
-	Fresh  bool    `json:"fresh,omitempty"`
+	Driver string   `json:"driver"`
+	Ops    []kvOp   `json:"ops,omitempty"`
+	Fresh  bool     `json:"fresh,omitempty"`
 	Hist   *c03Case `json:"hist,omitempty"`
 	Prog   *c01Case `json:"prog,omitempty"`
 	Volume int      `json:"volume,omitempty"` // this many keys under one prefix
